@@ -456,12 +456,57 @@ def ackermannize(formulas, rounds=4, subs_out=None):
 
 
 # ------------------------------------------------------------------ manual quantifier instantiation (portfolio member)
+def _ground_fun_args(fs):
+    """{(function name, argument position): [ground argument terms]} for uninterpreted functions and selects."""
+    out = {}
+    cache = {}
+    for e in _walk(fs):
+        if z3.is_quantifier(e) or not z3.is_app(e) or e.num_args() == 0:
+            continue
+        if e.decl().kind() == z3.Z3_OP_UNINTERPRETED:
+            name = e.decl().name()
+        elif z3.is_select(e):
+            name = "select"
+        else:
+            continue
+        for i, c in enumerate(e.children()):
+            if not _contains_var(c, cache):
+                out.setdefault((name, i), {})[c.get_id()] = c
+    return {k: list(v.values()) for k, v in out.items()}
+
+
+def _var_positions(body, nvars):
+    """For each bound variable (de Bruijn index): the (function, position) slots where it occurs DIRECTLY as an argument."""
+    pos = {i: set() for i in range(nvars)}
+    for e in _walk([body]):
+        if z3.is_quantifier(e) or not z3.is_app(e) or e.num_args() == 0:
+            continue
+        if e.decl().kind() == z3.Z3_OP_UNINTERPRETED:
+            name = e.decl().name()
+        elif z3.is_select(e):
+            name = "select"
+        else:
+            continue
+        for i, c in enumerate(e.children()):
+            if z3.is_var(c):
+                idx = z3.get_var_index(c)
+                if idx < nvars:
+                    pos[idx].add((name, i))
+    return pos
+
+
 def _ground_terms_by_sort(fs, sorts):
     """Candidate instantiation terms per sort: array-sorted ground subterms; integer ground terms used as indices,
     as arguments of uninterpreted functions, plus integer constants and their negations."""
     out = {s: {} for s in sorts}
     cache = {}
     int_s = z3.IntSort()
+    real_s = z3.RealSort()
+    if real_s in out:
+        for (fname, i), ts in _ground_fun_args(fs).items():
+            for t in ts:
+                if t.sort() == real_s:
+                    out[real_s][t.get_id()] = t
     for e in _walk(fs):
         if z3.is_quantifier(e) or not z3.is_app(e):
             continue
@@ -510,6 +555,7 @@ def instantiate_quantifiers(formulas, rounds=3, max_inst=300, budget_s=5.0):
         return None
     t_start = time.time()
     state = {"n": 0}
+    fun_args = {}
 
     def has_q(e, cache={}):
         i = e.get_id()
@@ -527,7 +573,20 @@ def instantiate_quantifiers(formulas, rounds=3, max_inst=300, budget_s=5.0):
             if not e.is_forall():
                 return z3.BoolVal(True)      # (should not occur after skolemisation) - dropping is sound
             n = e.num_vars()
-            pools = [terms.get(e.var_sort(i), []) for i in range(n)]
+            pools = []
+            slots = _var_positions(e.body(), n)
+            for i in range(n):
+                # variable i of the quantifier has de Bruijn index n-1-i in the body
+                sl = slots.get(n - 1 - i, set())
+                cand = {}
+                for key in sl:
+                    for t in fun_args.get(key, []):
+                        if t.sort() == e.var_sort(i):
+                            cand[t.get_id()] = t
+                pool = list(cand.values()) if sl else terms.get(e.var_sort(i), [])
+                if not pool and sl:
+                    pool = terms.get(e.var_sort(i), [])
+                pools.append(pool)
             if any(not p for p in pools):
                 return z3.BoolVal(True)
             parts = []
@@ -553,6 +612,7 @@ def instantiate_quantifiers(formulas, rounds=3, max_inst=300, budget_s=5.0):
                 for i in range(e.num_vars()):
                     need.add(e.var_sort(i))
         terms = _ground_terms_by_sort(cur + (fs if rnd else []), need)
+        fun_args = _ground_fun_args(cur + (fs if rnd else []))
         new = [z3.simplify(inst(f, terms, 0)) for f in fs]
         flat = []
         for f in new:
